@@ -207,11 +207,11 @@ WellFormed(h) ==
   \* client-initiated stream ids are odd and increase
   /\ \A i, j \in 1..N : (i < j /\ h[i].t = "HEADERS" /\ h[j].t = "HEADERS" /\ h[i].hk = "request" /\ h[j].hk = "request")
         => (h[i].s < h[j].s /\ h[i].s % 2 = 1 /\ h[j].s % 2 = 1)
-  \* after its own END_STREAM a side sends at most a RST_STREAM on that stream (RFC 9113 5.1,
-  \* half-closed (local)); after its own RST_STREAM nothing
+  \* after its own END_STREAM or RST_STREAM a side sends nothing but RST_STREAM on that stream
+  \* (RFC 9113 5.1: half-closed (local) / closed; real servers answer late frames of a closed
+  \* stream with RST_STREAM(STREAM_CLOSED), again and again)
   /\ \A i, j \in 1..N : (i < j /\ h[i].s # 0 /\ h[j].s = h[i].s /\ h[j].d = h[i].d /\ h[j].t \in {"HEADERS", "DATA"}
                           /\ ((h[i].t = "DATA" /\ h[i].es) \/ h[i].t = "RST" \/ (IsBlockEnd(h[i]) /\ h[i].es))) => FALSE
-  /\ \A i, j \in 1..N : (i < j /\ h[i].t = "RST" /\ h[j].t = "RST" /\ h[j].s = h[i].s /\ h[j].d = h[i].d) => FALSE
   \* the server answers only requests it has seen; data only after response headers
   /\ \A j \in 1..N : (h[j].d = "resp" /\ h[j].s # 0 /\ h[j].t \in {"HEADERS", "DATA", "RST"}) =>
         \E i \in 1..(j - 1) : IsBlockEnd(h[i]) /\ h[i].d = "req" /\ h[i].s = h[j].s
